@@ -68,6 +68,12 @@ impl<T> ValuesMatrix<T> {
     pub fn get_size(&self) -> usize {
         self.size
     }
+
+    /// Number of values in every generation, empty ones included (verification probe only).
+    #[cfg(feature = "verif_probes")]
+    pub fn generation_sizes(&self) -> Vec<usize> {
+        self.values.iter().map(|generation| generation.len()).collect()
+    }
 }
 
 impl<T: Clone> ValuesMatrix<T> {
@@ -136,6 +142,11 @@ impl<T> NewValuesMatrix<T> {
 
     pub fn get_size(&self) -> usize {
         self.0.size
+    }
+
+    #[cfg(feature = "verif_probes")]
+    pub fn generation_sizes(&self) -> Vec<usize> {
+        self.0.generation_sizes()
     }
 }
 
